@@ -174,12 +174,19 @@ func tapesOf(r *Run) [3][]int {
 	return [3][]int{r.Ops.Recorded(), r.Sched.Recorded(), r.Fault.Recorded()}
 }
 
+var minimiseWall = 30 * time.Second
+
 // minimise shrinks the tapes of a failing run while the same violation
 // class persists.
 func (h *Harness) minimise(t *testing.T, seed int64, tier string, class string, best [3][]int, budget int) ([3][]int, int) {
 	runs := 0
+	// shrinking is best effort and bounded in wall-clock time too: a violation whose runs each take seconds
+	// (a livelock that burns the whole step limit) must not keep the worker past its watchdog; whatever
+	// tapes are reached by then are still a reproducing replay
+	until := time.Now().Add(minimiseWall)
 	try := func(c [3][]int) (bool, [3][]int) {
-		if runs >= budget {
+		if runs >= budget || (runs > 0 && time.Now().After(until)) {
+			budget = runs
 			return false, c
 		}
 		runs++
